@@ -419,8 +419,12 @@ theorem wsafe_runOp (op : Op) : WSafe (fun w => runOp S w op) := by
   | blockEncoder c => intro w; simp only [runOp]; exact wsafe_strmInit S (safe_blockEncoderInit S c) w
   | blockDecoder c => intro w; simp only [runOp]; exact wsafe_strmInit S (safe_blockDecoderInit S c) w
   | indexEncoder => intro w; simp only [runOp]; exact wsafe_strmInit S (safe_indexEncoderInit S) w
-  | streamDecoder => intro w; simp only [runOp]; exact wsafe_strmInit S (safe_streamDecoderInit S) w
-  | autoDecoder => intro w; simp only [runOp]; exact wsafe_strmInit S (safe_autoDecoderInit S) w
+  | streamDecoder ml => intro w; simp only [runOp]; exact wsafe_strmInit S (safe_streamDecoderInit S ml) w
+  | autoDecoder ml => intro w; simp only [runOp]; exact wsafe_strmInit S (safe_autoDecoderInit S ml) w
+  | memlimitSet new =>
+    intro w; simp only [runOp]
+    exact wsafe_onRoot (safe_ite (fun n => n.init == I_SDEC) (safe_streamDecoderMemlimit new)
+      (safe_ite (fun n => n.init == I_AUTODEC) (safe_autoDecoderMemlimit S new) (fun n => Spec.pure (by ceqn)))) w
   | aloneDecoder => intro w; simp only [runOp]; exact wsafe_strmInit S (safe_aloneDecoderInit S) w
   | lzipDecoder => intro w; simp only [runOp]; exact wsafe_strmInit S (safe_lzipDecoderInit S) w
   | microDecoder => intro w; simp only [runOp]; exact wsafe_strmInit S (safe_microDecoderInit S) w
@@ -464,7 +468,7 @@ theorem wsafe_runOp (op : Op) : WSafe (fun w => runOp S w op) := by
   | strAlloc => intro w; simp only [runOp]; exact spec_temp_world (spec_allocFreeList _) w
   | streamBufferDecode c b s =>
     intro w; simp only [runOp]
-    exact spec_temp_world (spec_tempCoder (safe_seq (safe_streamDecoderInit S) (safe_streamDecode S c b s))) w
+    exact spec_temp_world (spec_tempCoder (safe_seq (safe_streamDecoderInit S _) (safe_streamDecode S c b s))) w
   | streamBufferEncode c => exact wsafe_streamBufferEncode S c
   | rawBufferCode enc c => intro w; simp only [runOp]; exact spec_temp_world (spec_tempCoder (safe_rawCoderInit S enc c)) w
   | blockBufferDecode c => intro w; simp only [runOp]; exact spec_temp_world (spec_tempCoder (safe_blockDecoderInit S c)) w
@@ -519,13 +523,13 @@ theorem good_of_wf {h : Heap} (hw : HeapWF h) : Good h ([] ++ h.live) := by
 /-- the 15 public initialisation functions on a `lzma_stream` -/
 def isInit : Op → Bool
   | .streamEncoder _ | .aloneEncoder _ | .microEncoder _ | .rawEncoder _ | .rawDecoder _ | .blockEncoder _
-  | .blockDecoder _ | .indexEncoder | .streamDecoder | .autoDecoder | .aloneDecoder | .lzipDecoder | .microDecoder
+  | .blockDecoder _ | .indexEncoder | .streamDecoder _ | .autoDecoder _ | .aloneDecoder | .lzipDecoder | .microDecoder
   | .indexDecoder | .fileInfoDecoder | .badFlagsInit _ => true
   | _ => false
 
 /-- calls that work on the handle only (they get no caller-owned index or filter array to write to) -/
 def isHandleOp : Op → Bool
-  | .encode .. | .filtersUpdate .. | .lzmaEnd => true
+  | .encode .. | .filtersUpdate .. | .memlimitSet _ | .lzmaEnd => true
   | op => isInit op
 
 theorem strmInit_fail (op : NodeOp) (w : World) (f : Oracle) (h : Heap)
